@@ -24,6 +24,27 @@ QED_NS = {"d3": 3, "u3": 4, "d8": 5, "u8": 6}  # non-singlet label -> smallest n
 QED_NS_BY_NF = {v: k for k, v in QED_NS.items()}
 
 
+def light_eko(*subpackages):
+    """Replays only: register bare package objects for `eko` (and the named sub-packages) so that importing one
+    module of the package does not execute eko/__init__.py (io, runner, numba, scipy: ~10 s per interpreter).
+    The modules under test themselves are imported and executed unmodified from $EKO_REPO/src."""
+    import os
+    import sys
+    import types
+
+    if "eko" in sys.modules:
+        return
+    root = next((p for p in sys.path if os.path.isfile(os.path.join(p, "eko", "basis_rotation.py"))), None)
+    if root is None:
+        return
+    for name in ("eko",) + tuple("eko." + s for s in subpackages):
+        pkg = types.ModuleType(name)
+        pkg.__path__ = [os.path.join(root, *name.split("."))]
+        sys.modules[name] = pkg
+    for s in subpackages:
+        setattr(sys.modules["eko"], s, sys.modules["eko." + s])
+
+
 def vname(prefix, label):
     """name of the solver symbol attached to a basis label / pid (shared by harness and replay)"""
     return "%s_%s" % (prefix, str(label).replace("-", "m").replace("+", "p"))
